@@ -128,6 +128,8 @@ def run_mps_case(case, ctx):
 
 
 def worker_setup(ctx):
+    from vf import neutral
+    neutral.enable(ctx)      # neutral prefixes after conversion in half of the cases
     pass
 
 
